@@ -9,6 +9,7 @@ Inductive site_kind :=
 | SkExit          (* os.Exit *)
 | SkAssert        (* single-value type assertion x.(T) *)
 | SkMustCompile   (* regexp.MustCompile of a non-constant *)
+| SkMustCall      (* call of a kustomize Must* / *OrDie helper, which panics or exits on behalf of the caller *)
 | SkOther.        (* recognised as terminating but not classified: can never be allowed *)
 
 (* a site is keyed by package, enclosing top-level declaration, kind and the ordinal of that kind
@@ -23,7 +24,7 @@ Record site := mkSite {
 Definition site_kind_eqb (a b : site_kind) : bool :=
   match a, b with
   | SkPanic, SkPanic | SkFatal, SkFatal | SkExit, SkExit
-  | SkAssert, SkAssert | SkMustCompile, SkMustCompile | SkOther, SkOther => true
+  | SkAssert, SkAssert | SkMustCompile, SkMustCompile | SkMustCall, SkMustCall | SkOther, SkOther => true
   | _, _ => false
   end.
 
